@@ -248,8 +248,44 @@ def arglist_programs(rng, n):
     return out
 
 
+def staircase_layouts():
+    """deterministic product: argument / element lists x containers x layouts in which LATER elements sit on LATER lines
+    at SMALLER (or equal) columns than earlier ones (position comparisons must be lexicographic in (line, column))"""
+    shapes = [['a', 'k=v', '*f(x)'], ['k=v', '*f(x)', '*g(y)'], ['a', 'k=(v)', '*(b)', 'l=w', '*h(z)[(0)]'],
+              ['*a', 'k=v', '**f(x)'], ['k=v', '**kw'], ['a', '*b', 'k=f(x)'], ['a', 'metaclass=M', '*mixins(é)']]
+    conts = ['class C({}): pass', 'r = f({})', '@d({})\ndef g(): pass', 'r = f(x)({})']
+    plain = [['a', '(b)', 'f(c)', 'é'], ['(a)', 'g(b)[(0)]', 'c']]
+    pconts = ['r = [{}]', 'r = ({},)', 'r = {{{}}}', 'del {}', 'r = {} if x else y'.replace('{}', 'h({})'), 'assert {}'.replace('{}', '({},)')]
+    out = []
+
+    def layouts(items):
+        n = len(items)
+        yield ', '.join(items)
+        yield ',\n  '.join(items)                                               # later lines at column 2
+        yield ' ' * 12 + ',\n '.join(items)                                     # first element far right
+        yield ',\n'.join(' ' * max(1, 3 * (n - i)) + it for i, it in enumerate(items))     # staircase to the left
+        yield ', '.join(items[:-1]) + ',\n ' + items[-1] + ',\n'               # only the last one on the next line, trailing comma
+
+    for sh in shapes:
+        for c in conts:
+            for lay in layouts(sh):
+                out.append(c.format(lay))
+    for sh in plain:
+        for c in pconts:
+            for lay in layouts(sh):
+                out.append(c.format(lay))
+    ok = []
+    for p in out:
+        try:
+            ast.parse(p)
+            ok.append(p)
+        except SyntaxError:
+            pass
+    return ok
+
+
 def programs(rng, n, stdlib):
-    out = arglist_programs(rng, max(12, n // 12))
+    out = staircase_layouts() + arglist_programs(rng, max(12, n // 12))
     base = corpus.programs(rng, n, stdlib=stdlib)
     for src in base:
         if rng.random() < 0.35:
